@@ -18,7 +18,9 @@ os.environ.setdefault("no_proxy", "127.0.0.1,localhost")
 ID = "C19"
 RULE = ("Hypothesis-generated runs of run_simulator(scheduler_algo='rest') against a loop-back HTTP server in a thread; external "
         "policies: a line-by-line Python port of go/naive/main.go and a tape-driven policy making arbitrary admissible multi-operator "
-        "assignments and suspensions from the JSON state alone; DAG workloads and generator workloads, poll intervals 0 / below one "
+        "assignments and suspensions from the JSON state alone, and a `sized` policy that starts every ready operator alone under a memory "
+        "limit given by its position (siblings are OOM-killed after different numbers of ticks and retried at once, so that they swap "
+        "failed / running between two consecutive calls); DAG workloads and generator workloads, poll intervals 0 / below one "
         "tick / several ticks, tick rates 1..1000. While the simulator is blocked in the request the handler compares the body with "
         "an independent serialisation of the live objects (results of the last tick, pool and container figures, operator states, "
         "is_complete / has_failures), checks operator entries carry exactly {id, state, is_assignable_state, parents_complete} and no "
